@@ -30,6 +30,20 @@ func main() {
 		}
 		return
 	}
+	if args[0] == "list-json" {
+		type jr struct {
+			ID, Title, Explain string
+			Pkgs, Assume      []string
+		}
+		var out []jr
+		for _, id := range rules.IDs() {
+			r := rules.Get(id)
+			out = append(out, jr{r.ID, r.Title, r.Explain, r.Pkgs, r.Assume})
+		}
+		b, _ := json.MarshalIndent(out, "", " ")
+		fmt.Println(string(b))
+		return
+	}
 	if args[0] == "dbg" {
 		dbg(*repo, args[1])
 		return
